@@ -71,7 +71,7 @@ def plan(rng, tier):
     hk = rng.random() < 0.55
     fams = OBJECT_KEY_FAMILIES if hk else None
     cfg = common.draw_cfg(rng, fams=fams, hk=hk, p_stored=1.0,
-                          p_default_sizes=0.04)
+                          p_default_sizes=0.04, p_sub=0.08)
     cfg["stored"] = True
     if cfg["internal"] == 2 and rng.random() < 0.7:
         cfg["internal"] = rng.choice([3, 4])
